@@ -5,10 +5,12 @@ package c18
 import (
 	"bytes"
 	"encoding"
+	"encoding/gob"
 	"fmt"
 	"runtime"
 	"runtime/debug"
 	"sort"
+	"strings"
 	"time"
 
 	"github.com/ozanh/ugo"
@@ -51,6 +53,59 @@ type base struct {
 	name    string
 	data    []byte
 	entries []entry
+	regions []region
+}
+
+// region is the extent of one gob-encoded value inside a base encoding. Map
+// entries are encoded in Go's random map order, so absolute positions inside
+// encodings that contain maps differ from run to run; positions relative to a
+// gob value (whose own encoding is deterministic) do not.
+type region struct {
+	name       string
+	start, end int
+}
+
+var gobValues = map[string]ugo.Object{}
+
+func gobBytes(v ugo.Object) []byte {
+	var buf bytes.Buffer
+	gob.NewEncoder(&buf).Encode(&v)
+	return buf.Bytes()
+}
+
+func findRegions(data []byte) []region {
+	var out []region
+	var names []string
+	for n := range gobValues {
+		names = append(names, n)
+	}
+	sort.Strings(names)
+	for _, n := range names {
+		g := gobBytes(gobValues[n])
+		for from := 0; ; {
+			i := bytes.Index(data[from:], g)
+			if i < 0 {
+				break
+			}
+			name := n
+			if k := len(out); k > 0 && strings.HasPrefix(out[k-1].name, n) {
+				name = fmt.Sprintf("%s#%d", n, strings.Count(fmt.Sprint(out), n)+1)
+			}
+			out = append(out, region{name, from + i, from + i + len(g)})
+			from += i + len(g)
+		}
+	}
+	return out
+}
+
+// where names a position: relative to a gob value when inside one.
+func (b *base) where(pos int) string {
+	for _, r := range b.regions {
+		if pos >= r.start && pos < r.end {
+			return fmt.Sprintf("gob(%s)+%d", r.name, pos-r.start)
+		}
+	}
+	return fmt.Sprintf("%d", pos)
 }
 
 var modules *ugo.ModuleMap
@@ -68,8 +123,12 @@ func moduleMap() *ugo.ModuleMap {
 		"i": ugo.Int(-5), "u": ugo.Uint(7), "f": ugo.Float(1.5), "c": ugo.Char('x'), "b": ugo.True, "s": ugo.String("str"), "y": ugo.Bytes("by"),
 		"a": ugo.Array{ugo.Int(1), ugo.String("two"), ugo.Array{}}, "m": ugo.Map{"k": ugo.Map{}}, "sm": &ugo.SyncMap{Value: ugo.Map{"q": ugo.Int(1)}},
 		"fn": &ugo.Function{Name: "fn", Value: func(...ugo.Object) (ugo.Object, error) { return ugo.Undefined, nil }},
-		"bf": ugo.BuiltinObjects[ugo.BuiltinLen], "e": &ugo.Error{Name: "E", Message: "m"}, "p": &ugo.ObjectPtr{Value: &one}, "und": ugo.Undefined, "": ugo.Int(0),
+		"bf": ugo.BuiltinObjects[ugo.BuiltinLen], "und": ugo.Undefined, "": ugo.Int(0),
 	})
+	// (values that are stored with the gob fallback are kept out of multi-key maps: map entries are encoded in Go's
+	// random map order and what follows a gob value decides how a corrupted gob length is read, which would make the
+	// set of failing cases differ from run to run; they are covered in arrays and single-key maps below)
+	_ = one
 	mm.AddSourceModule("src", []byte("x := 1\nf := func() {\n\tthrow \"boom\"\n}\nreturn {f: f, x: x}\n"))
 	modules = mm
 	return mm
@@ -87,6 +146,17 @@ var programs = []string{
 
 func compileAll(c *fw.Ctx) []base {
 	var out []base
+	// gob assigns type ids in order of first use (process-global); fix the order so that
+	// encodings (and therefore fault positions inside gob values) are the same in every run
+	one := ugo.Object(ugo.Int(1))
+	gobValues["error(E: m)"] = &ugo.Error{Name: "E", Message: "m"}
+	gobValues["error(E: )"] = &ugo.Error{Name: "E"}
+	gobValues["ptr(1)"] = &ugo.ObjectPtr{Value: &one}
+	for _, n := range []string{"error(E: m)", "error(E: )", "ptr(1)"} {
+		if len(gobBytes(gobValues[n])) == 0 {
+			c.Infra("gob value %s does not encode", n)
+		}
+	}
 	mm := moduleMap()
 	decodeBC := entry{"DecodeBytecodeFrom", func(d []byte) { encoder.DecodeBytecodeFrom(bytes.NewReader(d), mm) }}
 	unmarshalBC := entry{"Bytecode.UnmarshalBinary", func(d []byte) { var bc encoder.Bytecode; bc.UnmarshalBinary(d) }}
@@ -101,16 +171,15 @@ func compileAll(c *fw.Ctx) []base {
 			c.Infra("base program %d does not encode: %v", i, err)
 			continue
 		}
-		out = append(out, base{fmt.Sprintf("program%d/v2", i), buf.Bytes(), []entry{decodeBC, unmarshalBC}})
+		out = append(out, base{fmt.Sprintf("program%d/v2", i), buf.Bytes(), []entry{decodeBC, unmarshalBC}, nil})
 		d1, ok, err := v1.FromBytecode(bc)
 		if err != nil || !ok {
 			c.Infra("base program %d has no v1 form: %v", i, err)
 			continue
 		}
-		out = append(out, base{fmt.Sprintf("program%d/v1", i), d1, []entry{decodeBC, unmarshalBC}})
+		out = append(out, base{fmt.Sprintf("program%d/v1", i), d1, []entry{decodeBC, unmarshalBC}, nil})
 	}
 	// object-level encodings
-	one := ugo.Object(ugo.Int(1))
 	bcf, _ := ugo.Compile([]byte(programs[2]), ugo.CompilerOptions{})
 	objs := []struct {
 		name string
@@ -126,7 +195,9 @@ func compileAll(c *fw.Ctx) []base {
 		{"String", encoder.String("hello \xff"), func() encoding.BinaryUnmarshaler { return new(encoder.String) }},
 		{"Bytes", encoder.Bytes("bytes!"), func() encoding.BinaryUnmarshaler { return &encoder.Bytes{} }},
 		{"Array", encoder.Array{ugo.Int(1), ugo.String("s"), ugo.Array{ugo.True}, ugo.Map{"k": ugo.Undefined}, &ugo.Error{Name: "E"}}, func() encoding.BinaryUnmarshaler { return &encoder.Array{} }},
-		{"Map", encoder.Map{"a": ugo.Int(1), "": ugo.Array{}, "g": &ugo.ObjectPtr{Value: &one}}, func() encoding.BinaryUnmarshaler { return &encoder.Map{} }},
+		{"ArrayGob", encoder.Array{&ugo.Error{Name: "E", Message: "m"}, ugo.Map{"g": &ugo.ObjectPtr{Value: &one}}, ugo.Int(7), &ugo.ObjectPtr{Value: &one}, ugo.String("tail")}, func() encoding.BinaryUnmarshaler { return &encoder.Array{} }},
+		{"Map", encoder.Map{"a": ugo.Int(1), "": ugo.Array{}, "m": ugo.Map{"k": ugo.Float(1)}}, func() encoding.BinaryUnmarshaler { return &encoder.Map{} }},
+		{"MapGob", encoder.Map{"g": &ugo.ObjectPtr{Value: &one}}, func() encoding.BinaryUnmarshaler { return &encoder.Map{} }},
 		{"SyncMap", (*encoder.SyncMap)(&ugo.SyncMap{Value: ugo.Map{"a": ugo.Float(2)}}), func() encoding.BinaryUnmarshaler { return new(encoder.SyncMap) }},
 		{"CompiledFunction", (*encoder.CompiledFunction)(bcf.Main), func() encoding.BinaryUnmarshaler { return new(encoder.CompiledFunction) }},
 		{"BuiltinFunction", (*encoder.BuiltinFunction)(ugo.BuiltinObjects[ugo.BuiltinLen].(*ugo.BuiltinFunction)), func() encoding.BinaryUnmarshaler { return new(encoder.BuiltinFunction) }},
@@ -145,9 +216,11 @@ func compileAll(c *fw.Ctx) []base {
 		if o.name != "SourceFileSet" && o.name != "SourceFile" {
 			es = append(es, entry{"DecodeObject", func(d []byte) { encoder.DecodeObject(bytes.NewReader(d)) }})
 		}
-		out = append(out, base{"object/" + o.name, d, es})
+		out = append(out, base{"object/" + o.name, d, es, nil})
 	}
-	sort.SliceStable(out, func(i, j int) bool { return false })
+	for i := range out {
+		out[i].regions = findRegions(out[i].data)
+	}
 	return out
 }
 
@@ -261,13 +334,14 @@ func run(c *fw.Ctx) {
 			}
 		}
 	}
-	nontriv := func(b base, d []byte) bool {
+	nontriv := func(b *base, d []byte) bool {
 		// structural change: differs from the base in a tag/length/count position is approximated by
 		// "the decoder does not reject it at the first check" - counted by running DecodeObject/UnmarshalBinary cheaply is too
 		// expensive here, so count corruptions outside the 6-byte header and outside plain string payloads conservatively
 		return len(d) > 6
 	}
-	for _, b := range bases {
+	for bi := range bases {
+		b := &bases[bi]
 		c.Family(b.name, fmt.Sprintf("%d bytes: truncations, single-byte x255, double-byte window", len(b.data)))
 		// truncations
 		for n := 0; n < len(b.data); n++ {
@@ -285,15 +359,15 @@ func run(c *fw.Ctx) {
 		// single-byte corruptions
 		for pos := 0; pos < len(b.data); pos++ {
 			for v := 0; v < 256; v++ {
-				if byte(v) == b.data[pos] {
-					continue
-				}
 				if !c.Thorough() && len(b.data) > 700 && v > 15 && v != 0x7f && v != 0x80 && v < 0xfc {
 					// quick: large encodings (module maps, ~100 us per decode) get the tag values 0..15 and the
 					// length/sign boundary values only; thorough applies all 255 values
 					continue
 				}
 				if !c.Next() {
+					continue
+				}
+				if byte(v) == b.data[pos] {
 					continue
 				}
 				d := append([]byte(nil), b.data...)
@@ -305,7 +379,7 @@ func run(c *fw.Ctx) {
 					c.Sample(fmt.Sprintf("%s byte %d := 0x%02x", b.name, pos, v))
 				}
 				for _, e := range b.entries {
-					r.add(tcase{fmt.Sprintf("%s|%s|byte@%d=%02x", b.name, e.name, pos, v), e, d})
+					r.add(tcase{fmt.Sprintf("%s|%s|byte@%s=%02x", b.name, e.name, b.where(pos), v), e, d})
 				}
 			}
 		}
@@ -320,17 +394,19 @@ func run(c *fw.Ctx) {
 			for p2 := p1 + 1; p2 < len(b.data) && p2 <= p1+win; p2++ {
 				for _, v1 := range vals {
 					for _, v2 := range vals {
-						if v1 == b.data[p1] || v2 == b.data[p2] {
+						// Next() first: every worker must enumerate the same index sequence, and the bytes of
+						// an encoding that contains maps differ from process to process (random map order)
+						if !c.Next() {
 							continue
 						}
-						if !c.Next() {
+						if v1 == b.data[p1] || v2 == b.data[p2] {
 							continue
 						}
 						d := append([]byte(nil), b.data...)
 						d[p1], d[p2] = v1, v2
 						c.Nontrivial()
 						for _, e := range b.entries {
-							r.add(tcase{fmt.Sprintf("%s|%s|bytes@%d=%02x,@%d=%02x", b.name, e.name, p1, v1, p2, v2), e, d})
+							r.add(tcase{fmt.Sprintf("%s|%s|bytes@%s=%02x,@%s=%02x", b.name, e.name, b.where(p1), v1, b.where(p2), v2), e, d})
 						}
 					}
 				}
